@@ -23,9 +23,34 @@ func verifAssert(label string, c bool) {
 // ------------------------------------------------------------------------------------------------
 // C01 / C08 (owner: con-c01)
 
-// BuildWith writes only the tree's own arrays (t.levels[*][*]) and t.width / t.root.
+// BuildWith (extended by con-c08g for C08; the representation invariant WF(t) that htree.New establishes is described in
+// zz_verif_contracts_c08g.go): never panics (every t.levels[..][..] index), terminates, fails exactly when the tree is
+// too small and then changes nothing in *t; on success width is set and the shape fields are kept.
+// Frame: ASSUMED (`internal` = the rows t.levels[k][*], which no verified caller reads) plus *t: a checked frame needs
+// the 41 row objects listed one by one (`loop 2 assigns t.levels[1], ..., t.levels[40]`), which the solvers do not get
+// through (see notes/con-c08g.md); loop 2 therefore uses `assigns *` and its invariants carry the shape.
+// The level-wise functional clauses (leaves/nodes/odd/root) are NOT claimed: see notes/con-c08g.md.
 //@ func (*HTree).BuildWith
-//@   assigns internal
+//@   requires nlev: t.maxWidth > 0 ==> 1 <= len(t.levels) && len(t.levels) <= 41 && t.maxWidth <= 1 << uint(len(t.levels)-1)
+//@   requires rows: t.maxWidth > 0 ==> forall(k, 0, len(t.levels), len(t.levels[k]) == 1 << uint(len(t.levels)-1-k)
+//@     && !sameobj(t.levels[k], t) && !sameobj(t.levels[k], t.levels))
+//@   assigns internal, t
+//@   ensures err: (r0 != nil) == (len(digests) > old(t.maxWidth))
+//@   ensures errv: r0 != nil ==> r0 == ErrMaxWidthExceeded && unchanged(t)
+//@   ensures keep: t.maxWidth == old(t.maxWidth) && t.levels == old(t.levels)
+//@   ensures width: r0 == nil ==> t.width == len(digests)
+//@   ensures root0: r0 == nil && len(digests) == 0 ==> t.root == spec_empty()
+//@   loop 1 assigns t.levels[0]
+//@   loop 1 invariant hdr: unchanged(t) && unchanged(old(t.levels))
+//@   loop 1 invariant rng: -1 <= rangeindex && rangeindex < len(digests)
+//@   loop 2 assigns *
+//@   loop 2 invariant hdr: unchanged(t) && unchanged(old(t.levels))
+//@   loop 2 invariant rng: 0 <= l && l < len(t.levels) && 1 <= w && w <= len(t.levels[l])
+//@   loop 2 decreases w
+//@   loop 3 assigns t.levels[l+1]
+//@   loop 3 invariant hdr: unchanged(t) && unchanged(old(t.levels))
+//@   loop 3 invariant rng: 0 <= i && i <= w && i%2 == 0 && wn == i/2
+//@   loop 3 decreases w - i
 
 //@ func (*HTree).Root
 //@   assigns nothing
